@@ -459,6 +459,7 @@ func c34Case(g *Gen, nOps int) {
 			tx, _ := w.mkTx([]string{"claim", strconv.Itoa(i), "0", "0"})
 			ok := w.exec(tx)
 			paid := new(big.Int).Sub(w.sim.GetBalance(w.actors[i]), before)
+			paid.Sub(paid, c34Expiring(ac, w.sim.BlockHeight())) // unstakes returned by the timers of this block
 			okS := 0
 			if ok {
 				okS = 1
@@ -590,6 +591,7 @@ func (r *c34Runner) Step(toks []string, o *Oracle) string {
 		}
 		if toks[0] == "claim" {
 			paid := new(big.Int).Sub(r.w.sim.GetBalance(r.w.actors[actor]), before[r.w.actors[actor].String()].bal)
+			paid.Sub(paid, c34Expiring(before[r.w.actors[actor].String()], r.w.sim.BlockHeight()))
 			exp := "0"
 			if okTx {
 				exp = "1"
@@ -667,6 +669,17 @@ func (r *c34Runner) checkBlock(o *Oracle, before map[string]*c34Acct, touched ..
 			lu.Add(lu, u.amt)
 		}
 		o.Check(ld.Cmp(ac.deleg) == 0 && lb.Cmp(ac.bond) == 0 && lu.Cmp(ac.unbond) == 0, "c34-account-totals", "account %s cached totals differ from lists", a)
+		if before != nil {
+			bf := before[a.String()]
+			if len(ac.unbonds) > len(bf.unbonds) {
+				o.Count("unbond-created")
+			}
+			for _, u := range bf.unbonds {
+				if u.expire == h {
+					o.Count("unbond-expired")
+				}
+			}
+		}
 		// unstaked ICX returns exactly once, exactly at expiry
 		if before != nil && !isTouched[a.String()] {
 			bf := before[a.String()]
@@ -695,4 +708,15 @@ func c34LogLevel() log.Level {
 		return log.TraceLevel
 	}
 	return log.PanicLevel
+}
+
+// c34Expiring sums the unstake slots of a (state before the block) that expire at height h.
+func c34Expiring(a *c34Acct, h int64) *big.Int {
+	s := new(big.Int)
+	for _, u := range a.unstakes {
+		if u[1].Int64() == h {
+			s.Add(s, u[0])
+		}
+	}
+	return s
 }
